@@ -386,14 +386,14 @@ type FuncContract struct {
 func (f *FuncContract) FullName() string { return f.Pkg + "." + f.Name }
 
 type SpecFn struct {
-	Pkg     string
-	Name    string
-	Params  []string
-	PTypes  []string
-	RType   string
-	Body    *SExpr // nil: uninterpreted
-	Rec     bool
-	Where   string
+	Pkg    string
+	Name   string
+	Params []string
+	PTypes []string
+	RType  string
+	Body   *SExpr // nil: uninterpreted
+	Rec    bool
+	Where  string
 }
 
 type Lemma struct {
@@ -412,12 +412,12 @@ type Lemma struct {
 }
 
 type Contracts struct {
-	Funcs   map[string]*FuncContract // by full name
-	Order   []string
-	Specs   map[string]*SpecFn // by pkg.name and by bare name (package-local)
-	Lemmas  map[string]*Lemma
-	LOrder  []string
-	Errors  []string
+	Funcs  map[string]*FuncContract // by full name
+	Order  []string
+	Specs  map[string]*SpecFn // by pkg.name and by bare name (package-local)
+	Lemmas map[string]*Lemma
+	LOrder []string
+	Errors []string
 }
 
 func newContracts() *Contracts {
